@@ -25,7 +25,11 @@ use std::panic::{catch_unwind, AssertUnwindSafe};
 use std::rc::Rc;
 use vharness::*;
 
+mod oracle_c05;
 mod oracle_c06;
+mod oracle_c18;
+mod script_c05;
+mod script_c18;
 mod step;
 use step::Step;
 
@@ -557,6 +561,7 @@ fn main() {
     let thorough = tier_is_thorough();
     let mut n_sessions: u64 = if thorough { 6000 } else { 400 };
     let mut ops_per: u64 = if thorough { 80 } else { 60 };
+    let mut script_name: Option<String> = None;
     let mut i = 1;
     while i < args.len() {
         match args[i].as_str() {
@@ -568,9 +573,18 @@ fn main() {
                 ops_per = args[i + 1].parse().unwrap();
                 i += 1;
             }
+            "--script" => {
+                // scripted sessions (c18: exhaustive character sweep, c05: limit overshoots) instead of generated ones
+                script_name = Some(args[i + 1].clone());
+                i += 1;
+            }
             _ => {}
         }
         i += 1;
+    }
+    if let Some(name) = &script_name {
+        n_sessions = if name == "c05" { script_c05::n_sessions(thorough) } else { script_c18::n_sessions(thorough) };
+        ops_per = 100_000;
     }
     // panics inside the editor are outcomes, not noise
     std::panic::set_hook(Box::new(|_| {}));
@@ -630,8 +644,19 @@ fn main() {
         let mut pending: Vec<Op> = vec![];
         let mut history: Vec<String> = vec![];
 
+        let mut script18 = script_name.as_ref().filter(|n| *n != "c05").map(|_| script_c18::Script::new(sid, thorough));
+        let mut script05 = script_name.as_ref().filter(|n| *n == "c05").map(|_| script_c05::Script::new(sid, thorough));
         for _ in 0..ops_per {
-            let op = gen_op(&mut rng, &s, &pool, &mut pending, uniform);
+            let scripted = match (&mut script18, &mut script05) {
+                (Some(sc), _) => Some(sc.next(&s.ed.verif_snapshot())),
+                (_, Some(sc)) => Some(sc.next(&s.ed.verif_snapshot())),
+                _ => None,
+            };
+            let op = match scripted {
+                Some(Some(op)) => op,
+                Some(None) => break,
+                None => gen_op(&mut rng, &s, &pool, &mut pending, uniform),
+            };
             let ev = match &op {
                 Op::Key(c, m) => Some(kb.map_with_mod(*c, *m)),
                 _ => None,
@@ -719,7 +744,9 @@ fn main() {
                         dict_pre: &dict_pre, dict_post: &dict_post, history: &history, seed, sid,
                     };
                     // the properties, evaluated directly on the real editor (one module per property)
+                    oracle_c05::check(&mut out, &step);
                     oracle_c06::check(&mut out, &step);
+                    oracle_c18::check(&mut out, &step);
                     out.rec(&format!(
                         "ed {} | {} | {} | {} {} => ok | {} | {} | {}",
                         opstr, pre, dict_pre, lay_ans, conv_ans, post, ret, dict_post
@@ -739,6 +766,8 @@ fn main() {
         // the Editor owns the user dictionary; dropping it here keeps `user_ptr` valid above
         drop(s);
     }
+    oracle_c05::finish(&mut out);
+    oracle_c18::finish(&mut out);
     out.stat("sessions", n_sessions);
     out.stat("ops", n_ops);
     out.stat("panics", n_panic);
